@@ -44,12 +44,18 @@ func statsFamily(c map[string]json.RawMessage) (interface{}, error) {
 		}
 		return res, nil
 	case "concept":
+		if boolean(c, "cli") {
+			return conceptCli(c)
+		}
 		pl := concept.NewConceptAnalyser().Analysis(&clzs)
 		if pl == nil {
 			pl = string_helper.PairList{}
 		}
 		return map[string]interface{}{"pairs": pl}, nil
 	case "evaluate":
+		if boolean(c, "cli") {
+			return evaluateCli(c)
+		}
 		var ids []core_domain.CodeDataStruct
 		if err := json.Unmarshal(c["identifiers"], &ids); err != nil {
 			return nil, err
@@ -156,4 +162,64 @@ func countCli(clzs json.RawMessage, n int, top int) ([][][]string, error) {
 		runs = append(runs, rows)
 	}
 	return runs, nil
+}
+
+// evaluateCli: `coca evaluate -d deps.json` with the identifiers in coca_reporter/identify.json; the summary is read back
+// from coca_reporter/evaluate.json
+func evaluateCli(c map[string]json.RawMessage) (interface{}, error) {
+	work, err := newWork()
+	if err != nil {
+		return nil, err
+	}
+	defer os.RemoveAll(work)
+	deps := filepath.Join(work, "deps.json")
+	if err := os.WriteFile(deps, c["clzs"], 0644); err != nil {
+		return nil, err
+	}
+	_ = putReport(work, "identify.json", c["identifiers"])
+	stdout, err := cocaCli(work, "evaluate", "-d", deps)
+	if err != nil {
+		return nil, err
+	}
+	b, err := getReport(work, "evaluate.json")
+	if err != nil {
+		return nil, err
+	}
+	var r struct {
+		Nullable struct{ Items []string }
+		Summary  struct{ UtilsCount, ClassCount, MethodCount, StaticMethodCount int }
+	}
+	if err := json.Unmarshal(b, &r); err != nil {
+		return map[string]interface{}{"reportUnreadable": fmt.Sprintf("coca_reporter/evaluate.json (%d bytes): %v", len(b), err), "stdout": stdout}, nil
+	}
+	items := append([]string{}, r.Nullable.Items...)
+	sort.Strings(items)
+	return map[string]interface{}{"UtilsCount": r.Summary.UtilsCount, "ClassCount": r.Summary.ClassCount,
+		"MethodCount": r.Summary.MethodCount, "StaticMethodCount": r.Summary.StaticMethodCount, "Nullable": items}, nil
+}
+
+// conceptCli: `coca concept -d deps.json`; the printed table (words with a positive count) is read back
+func conceptCli(c map[string]json.RawMessage) (interface{}, error) {
+	work, err := newWork()
+	if err != nil {
+		return nil, err
+	}
+	defer os.RemoveAll(work)
+	deps := filepath.Join(work, "deps.json")
+	if err := os.WriteFile(deps, c["clzs"], 0644); err != nil {
+		return nil, err
+	}
+	stdout, err := cocaCli(work, "concept", "-d", deps)
+	if err != nil {
+		return nil, err
+	}
+	pl := string_helper.PairList{}
+	for _, row := range tableRows(stdout, 2) {
+		n, err := strconv.Atoi(row[1])
+		if err != nil {
+			continue // header
+		}
+		pl = append(pl, string_helper.Pair{Key: row[0], Value: n})
+	}
+	return map[string]interface{}{"pairs": pl}, nil
 }
